@@ -196,6 +196,12 @@ func matchStore(w *drv.World, m *model.Store, universeBuckets []string) (diff st
 		if strings.Join(got, "\x00") != strings.Join(m.Keys(b), "\x00") {
 			return fmt.Sprintf("bucket %s lists %q, model %q", b, got, m.Keys(b)), "key-set:" + b
 		}
+		// the grouped view: no common prefix without a key below it (left-over directories)
+		ld := w.List(b, "delimiter=%2F")
+		_, wantCP := model.Split(model.Group(m.Keys(b), "", "/"))
+		if ld.Status != 200 || strings.Join(ld.Prefixes, "\x00") != strings.Join(wantCP, "\x00") {
+			return fmt.Sprintf("bucket %s with delimiter '/' answers %d with common prefixes %q, the keys %q give %q", b, ld.Status, ld.Prefixes, m.Keys(b), wantCP), "common-prefixes:" + b
+		}
 		for _, e := range lp.Entries {
 			o := m.Get(b, e.Key)
 			if e.ETag != drv.ETagOf(o.Body) || e.Size != int64(len(o.Body)) {
@@ -304,9 +310,9 @@ type crashJobResult struct {
 func touched(o crashOp) []string {
 	switch o.kind {
 	case "put", "putbig", "putmeta", "delete":
-		return []string{"object:" + o.b + "/" + o.k, "key-set:" + o.b}
+		return []string{"object:" + o.b + "/" + o.k, "key-set:" + o.b, "common-prefixes:" + o.b}
 	case "copy":
-		return []string{"object:" + o.b2 + "/" + o.k2, "key-set:" + o.b2}
+		return []string{"object:" + o.b2 + "/" + o.k2, "key-set:" + o.b2, "common-prefixes:" + o.b2}
 	case "multi":
 		return []string{"object:" + o.b + "/k", "object:" + o.b + "/d/x", "key-set:" + o.b}
 	case "create", "delbucket":
@@ -533,8 +539,11 @@ func c15RunHistory(kind drv.Kind, alpha []crashOp, hist []int, res *crashJobResu
 					}
 				}
 			}
+			if strings.HasPrefix(wPre, "common-prefixes:") && (wPost == "" || strings.HasPrefix(wPost, "common-prefixes:")) {
+				what = "left-over-directory-listed-as-common-prefix"
+			}
 			v.Sig = sig("C15", class, "crash", "in-flight="+inflight, what)
-			if what == "in-flight-op-partially-applied" && (op.kind == "put" || op.kind == "putbig" || op.kind == "putmeta" || op.kind == "copy") && lbl+1 < len(models) {
+			if what == "in-flight-op-partially-applied" && !strings.HasPrefix(wPre, "common-prefixes:") && (op.kind == "put" || op.kind == "putbig" || op.kind == "putmeta" || op.kind == "copy") && lbl+1 < len(models) {
 				v.Sig = sig("C15", class, "crash", "in-flight="+inflight, what, tornDetail(rw, op, models[lbl], models[lbl+1]))
 			}
 			v.Msg = fmt.Sprintf("after a kill during %s the reopened store matches neither the state before the operation (%s) nor after it (%s)", inflight, dPre, dPost)
